@@ -7,7 +7,10 @@
 (*        of the span of the shared vertices (>= 3: a 2-dimensional face); *)
 (*        distId = class of min(theta, pi - theta),                        *)
 (*   adj <<[i,j]>>, borders <<[i,j,id]>>, dists <<[i,j,id]>>  the code's   *)
-(*        default (folded, N x N) matrices in stored order, err]           *)
+(*        default (folded, N x N) matrices in stored order, err,           *)
+(*   oracle (FALSE: grid beyond the brute-force bound, geo empty),         *)
+(*   dchk <<[i, j, distId, angleId]>> stored distance vs folded angle of   *)
+(*        the two quaternions, positive (all stored borders/distances > 0)]*)
 (* The declarative fold is the one of Fold.tla: rotations i # j are        *)
 (* adjacent iff R(i,j) or R(i, j+N); the border is the face area when      *)
 (* exactly one of the two holds.                                           *)
@@ -43,6 +46,9 @@ Clause(r) ==
      ELSE IF \E p \in codeAdj : p[1] = p[2] THEN "diagonal entry"
      ELSE IF \E p \in codeAdj : <<p[2], p[1]>> \notin codeAdj THEN "adjacency not symmetric"
      ELSE IF bPat # codeAdj \/ dPat # codeAdj THEN "the three matrices differ in pattern"
+     ELSE IF ~r.oracle THEN                  \* larger grids without the brute-force complex: structure and the folded angles only
+          (IF \E d \in ToSet(r.dchk) : d[3] # d[4] THEN "distance is not the sign-folded quaternion angle"
+           ELSE IF ~r.positive THEN "a border or distance entry is not positive" ELSE "ok")
      ELSE IF (codeAdj \ unsure) # (DeclAdj \ unsure) THEN "adjacency is not 'cells of {q,-q} share a 2-dimensional face'"
      ELSE IF \E d \in ToSet(r.dists) : <<d[1], d[2]>> \notin unsure /\ d[3] # info(CHOOSE q \in touching(<<d[1], d[2]>>) : TRUE)[5]
           THEN "distance is not the sign-folded quaternion angle"
